@@ -5,7 +5,7 @@
    transport are oracles: the theorems below hold for EVERY answer they may give. *)
 From Coq Require Import List Bool.
 From EN Require Import Lib.Bytes Conc.TlsBase Conc.TlsPump Conc.IdealTls Conc.TlsDuplex
-  Proofs.C08_proofs Proofs.Ideal_proofs Proofs.C08_locks Proofs.C08_duplex.
+  Proofs.C08_proofs Proofs.Ideal_proofs Proofs.C08_locks Proofs.C08_duplex Proofs.C08_progress Proofs.C08_refute.
 Import ListNotations.
 
 (* (i) cipher_only.  For every trace (any number of tasks, any interleaving, any answers of the SSL object and of the
@@ -103,11 +103,87 @@ Theorem ideal_decodes_only_complete_records : forall (E D : byte -> byte),
 Proof. intros E D DE. exact (parse1_prefix E D DE). Qed.
 Print Assumptions ideal_decodes_only_complete_records.
 
-(* (iii) pump_progress — FULL STATEMENT (not proved as one theorem):
-     in every reachable state of two pumps over the ideal layer in which some plaintext is unread or the handshake is
-     incomplete, a transition is enabled that does not depend on the blocked party.
-   Proved: the local ordering facts that rule out the deadlock "waiting for the peer while our own flight is still in
-   the outgoing BIO", for every state and every answer. *)
+(* (iii) pump_progress.  Composed system as in (ii).  DISCIPLINE on the application (label_ok / gexec): on each side
+   wrap() is the first call, recv()/send_all() are issued only after wrap() has returned, and at most one recv() is
+   pending at a time (any number of concurrent send_all()).  `stuck c` = no transition other than a new application
+   call is enabled (no task can call the SSL object, take a lock, have its send_all return, or receive a fragment —
+   the network delivers whatever is in flight, so nothing here depends on a blocked party).
+   In EVERY reachable stuck state:
+     * every pending call is parked inside transport.recv_into and nothing is in flight towards its side;
+     * both outgoing BIOs and both write backlogs are empty (no ciphertext or plaintext left behind in the pump);
+     * for a side with a pending call, its incoming BIO holds only whole records and
+       returned ++ decrypted ++ payloads in the incoming BIO = everything the other side has written;
+     * every recv() that is still waiting has returned EVERYTHING the other side has written so far.
+   Contrapositive: whenever plaintext written by one side has not been returned to a waiting recv() of the other side,
+   some transition other than an application call is enabled.  For all values of the three fix flags.
+   NOT covered (missing half of the full statement): that two pending wrap() calls cannot be stuck together
+   (handshake completion needs a protocol-level invariant of the ideal handshake; validated on every real run). *)
+Theorem pump_progress : forall (fl : flags) (E D : byte -> byte) (M : nat),
+  (forall x, D (E x) = x) ->
+  forall ls c,
+  gexec fl E D M duplex0 ls = Some c -> stuck fl E D M c ->
+  (forall t tk, nth_error (tasks_of (dA c)) t = Some tk -> pending tk = true -> t_pc tk = PRecving /\ nBA c = []) /\
+  (forall t tk, nth_error (tasks_of (dB c)) t = Some tk -> pending tk = true -> t_pc tk = PRecving /\ nAB c = []) /\
+  wbio (shp (dA c)) = [] /\ wbio (shp (dB c)) = [] /\ deque (shp (dA c)) = [] /\ deque (shp (dB c)) = [] /\
+  (has_pending (dB c) -> exists recs, i_rbio (e_ideal (dB c)) = encs E recs /\
+       e_got (dB c) ++ i_plain (e_ideal (dB c)) ++ data_of recs = e_written (dA c)) /\
+  (has_pending (dA c) -> exists recs, i_rbio (e_ideal (dA c)) = encs E recs /\
+       e_got (dA c) ++ i_plain (e_ideal (dA c)) ++ data_of recs = e_written (dB c)) /\
+  (forall t tk, nth_error (tasks_of (dB c)) t = Some tk -> pending tk = true -> t_meth tk = MRead ->
+       e_got (dB c) = e_written (dA c)) /\
+  (forall t tk, nth_error (tasks_of (dA c)) t = Some tk -> pending tk = true -> t_meth tk = MRead ->
+       e_got (dA c) = e_written (dB c)).
+Proof. intros fl E D M DE. exact (duplex_progress fl E D M DE). Qed.
+Print Assumptions pump_progress.
+
+(* (iii') the discipline "one recv() at a time" is necessary for the code WITHOUT meta/fixes/C08_lost_wakeup.diff
+   (f_recheck = false): two concurrent recv() reach a stuck state in which the second one is parked in recv_into although
+   its record is complete in the incoming BIO and has not been returned (finding lost-wakeup-after-recv-lock, fixed in
+   /repo; witness replayed on the real transport: corpus/C08/two_readers_ files).  stuckb is a verified decision procedure
+   for `stuck` (stuckb_sound). *)
+Theorem pump_progress_refuted_two_readers : forall cf,
+  let fl := {| f_recheck := false; f_skiplock := false; f_close_flush := cf |} in
+  exists ls c, dexec fl Ew Dw 4 duplex0 ls = Some c /\ stuck fl Ew Dw 4 c /\
+    (exists t tk, nth_error (tasks_of (dB c)) t = Some tk /\ t_meth tk = MRead /\ t_pc tk = PRecving) /\
+    (exists r, parse1 Dw (i_rbio (e_ideal (dB c))) = Some r) /\
+    e_got (dB c) <> e_written (dA c).
+Proof.
+  intros cf fl. destruct (two_readers_stuck cf) as [c [Hx [Hs [Hu [Hg [Hw Ht]]]]]].
+  exists two_readers_trace, c. split; [exact Hx |]. split; [apply stuckb_sound; exact Hs |]. split.
+  - destruct (tasks_of (dB c)) as [| t0 [| t1 [| t2 rest]]] eqn:Et; try discriminate.
+    exists 2, t2. cbn in Ht. inversion Ht. cbn. auto.
+  - split.
+    + unfold unread_record in Hu. destruct (parse1 Dw (i_rbio (e_ideal (dB c)))) as [r |]; [eauto | discriminate].
+    + rewrite Hg, Hw. discriminate.
+Qed.
+Print Assumptions pump_progress_refuted_two_readers.
+
+(* (iii'') the send lock and a call that has nothing to flush (findings reader-queues-on-send-lock-with-nothing-to-flush
+   and cancelled-recv-loses-decrypted-plaintext, fixed in /repo by C08_send_lock_only_if_pending.diff).
+   With the fix (f_skiplock = true): after WANT_READ with an empty outgoing BIO the task goes straight for the recv
+   lock whoever holds the send lock, and a successful call with nothing to flush ends at once (no checkpoint). *)
+Theorem no_send_lock_when_nothing_to_flush : forall (fl : flags) m b s x,
+  f_skiplock fl = true -> a_meth x = m -> a_arg x = expected_arg m b s -> wbio s ++ a_wdelta x = [] ->
+  (a_out x = SWantRead -> step fl m b s PCall (LSsl x) = Some (set_wbio s [], PRecvWait (feeds s), [])) /\
+  (forall v, a_out x = SOk v -> m <> MWrite -> step fl m b s PCall (LSsl x) = Some (set_wbio s [], PEnd (ROk v), [])).
+Proof. exact C08_refute.no_send_lock_when_nothing_to_flush. Qed.
+Print Assumptions no_send_lock_when_nothing_to_flush.
+
+(* Without it (f_skiplock = false): the task queues on the send lock although it has nothing to send — it cannot move
+   while another task's send_all is in flight — and a successful call can still be cancelled there, losing its result. *)
+Theorem send_lock_taken_for_nothing_refuted : forall (fl : flags) m b s x,
+  f_skiplock fl = false -> a_meth x = m -> a_arg x = expected_arg m b s -> wbio s ++ a_wdelta x = [] ->
+  (a_out x = SWantRead ->
+     step fl m b s PCall (LSsl x) = Some (set_wbio s [], PFlush (KRead (feeds s)), []) /\
+     (send_lock s = true -> go fl m (set_wbio s []) (PFlush (KRead (feeds s))) = None)) /\
+  (forall v bt, a_out x = SOk v -> m <> MWrite ->
+     step fl m b s PCall (LSsl x) = Some (set_wbio s [], PFlush (KRet v), []) /\
+     step fl m b (set_wbio s []) (PFlush (KRet v)) (LT (TCancel bt)) = Some (set_wbio s [], PEnd (RCancel bt), [])).
+Proof. exact send_lock_taken_for_nothing. Qed.
+Print Assumptions send_lock_taken_for_nothing_refuted.
+
+(* Local ordering facts that rule out "waiting for the peer while our own flight is still in the outgoing BIO",
+   for every state and every answer: *)
 
 (* (iii-a) WANT_READ with ciphertext pending and the send lock free: the task's next action is send_all(everything
    pending) and it is then NOT yet reading. *)
